@@ -18,14 +18,23 @@ def clean(wt):
 
 def main():
     pid, n = sys.argv[1], sys.argv[2]
-    wt = '/tmp/seed/%s' % pid
-    diff, demo, notes = ['%s/%s%s.%s' % (wt, a, n, b) for a, b in (('mut','diff'),('demo','py'),('notes','md'))]
+    srcdir = '/tmp/seed/%s' % pid
+    diff, demo, notes = ['%s/%s%s.%s' % (srcdir, a, n, b) for a, b in (('mut','diff'),('demo','py'),('notes','md'))]
     res = {'property': pid, 'n': n}
+    # evaluate on a fresh worktree of the CURRENT /repo HEAD (the agents' worktrees may predate later fix commits)
+    wt = '/tmp/seedeval/%s_%s' % (pid, n)
+    sh('git -C /repo worktree remove --force %s' % wt, '/tmp')
+    os.makedirs('/tmp/seedeval', exist_ok=True)
+    rc, out = sh('git -C /repo worktree add --detach %s HEAD' % wt, '/tmp')
+    if rc != 0:
+        print(json.dumps({'error': out[-300:]})); return 1
+    shutil.copy(demo, wt + '/' + os.path.basename(demo))
+    demo = wt + '/' + os.path.basename(demo)
     clean(wt)
     rc, out = sh('%s %s' % (PY, demo), wt); res['demo_clean_exit'] = rc
     rc, out = sh('git apply %s' % diff, wt); res['apply'] = rc
     if rc != 0:
-        print(json.dumps(res), out[-300:]); clean(wt); return 1
+        print(json.dumps(res), out[-300:]); sh('git -C /repo worktree remove --force %s' % wt, '/tmp'); return 1
     for t in TABS:
         try: os.remove(os.path.join(wt, t))
         except OSError: pass
@@ -41,7 +50,7 @@ def main():
     res['caught_by'] = caught
     res['confirmed'] = (res['demo_clean_exit'] == 0 and '244 passed' in res['tests'] and res['demo_mutant_exit'] != 0)
     if res['confirmed'] and '--keep' in sys.argv:
-        d = '/verif/seeded/%s-%s' % (pid, n)
+        d = '/verif/seeded/%s-%s%s' % (pid, os.environ.get('SEED_TAG', ''), n)
         os.makedirs(d, exist_ok=True)
         shutil.copy(diff, d + '/patch.diff'); shutil.copy(demo, d + '/demo.py')
         meta = {'breaks_property': pid, 'source': 'independent sub-agent given only the property text and a scratch worktree',
@@ -52,7 +61,7 @@ def main():
                 'detected_by': {p: v['lines'] for p, v in caught.items() if v['exit'] == 1},
                 'analysis_error_in': [p for p, v in caught.items() if v['exit'] == 2]}
         json.dump(meta, open(d + '/meta.json', 'w'), indent=1)
-    clean(wt)
+    sh('git -C /repo worktree remove --force %s' % wt, '/tmp')
     print(json.dumps(res, indent=1))
     return 0
 
